@@ -382,7 +382,11 @@ func (r *shellRun) simple(w []string, redir, redirTo string) (int, string) {
 		}
 		if len(stdout) > 0 {
 			s.Pre("sh-write", 0, redirTo)
-			fs.AppendData(n, abs, stdout)
+			if redir == ">>" {
+				fs.AppendData(n, abs, stdout)
+			} else {
+				fs.WriteAt(n, abs, 0, stdout)
+			}
 		}
 	} else {
 		r.out = append(r.out, stdout...)
@@ -727,7 +731,7 @@ func (sh *Shell) runOp(r *shellRun, w []string) (int, string) {
 			if step("write-chunk", p) {
 				return sh.finish(o, -1, "killed")
 			}
-			fs.AppendData(n, abs, data[off:end])
+			fs.WriteAt(n, abs, off, data[off:end])
 			if partial {
 				r.errf("op %s: injected failure after partial write of %s", o.Name, p)
 				return sh.finish(o, 1, "")
